@@ -66,6 +66,11 @@ def decode_at(position, spec):
 
 
 def oracle(case) -> Info:
+    with C.local_tz(len(repr(case))):  # the process's local time zone is part of the environment: results must not depend on it
+        return _oracle_tz(case)
+
+
+def _oracle_tz(case) -> Info:
     spec = tuple(case[:10])
     exp = C.dt_expected(spec)
     twin = tuple(case[10]) if len(case) > 10 and case[10] is not None else None
